@@ -115,6 +115,11 @@ class C03(Prop):
             for kind in ("readers", "load"):
                 for ua in (False, True):
                     yield {**c, "kind": kind, "use_analog": ua}
+        # more than 10000 scans: scan numbers with five digits
+        toks = [[[[str((7 * s) % 11)]] for s in range(10001)]]
+        yield {"kind": "readers", "use_analog": False, "delimiter": ",", "decimal": ".", "bom": False, "eol": "\r\n",
+               "explicit_delimiter": False,
+               "acq": {"samples": ["1"], "nscans": 10001, "elements": ["31P"], "channels": ["Counter"], "tokens": toks}}
         for lines in ([], [""], ["A,B"], ["1,2", "3,4"], ["x", "MainRuns,0,A,Counter,1,"], ["a", "b", "c"],
                       ["a", "MainRuns", "c", "MainRuns"]):
             for final in (True, False):
